@@ -253,6 +253,79 @@ Section BindProofs.
     exists c1, c2. repeat split. apply (hash_eq_dec H). congruence.
   Qed.
 
+  (* ---------- the public Core API: each method hands out provider data only
+     after its verification function accepted it against a light block the
+     light client verified ---------- *)
+  Theorem core_get_block_binds_l (lbo : option light_block) (b : block) :
+    core_get_block H lbo b = BOk -> exists lb, lbo = Some lb /\ verify_block H b lb = BOk.
+  Proof. destruct lbo as [lb|]; cbn; [eauto|discriminate]. Qed.
+
+  Theorem core_get_transactions_binds_l (lbo : option light_block) (txs : list bytes) :
+    core_get_transactions H lbo txs = BOk -> exists lb, lbo = Some lb /\ verify_transactions H txs lb = BOk.
+  Proof. destruct lbo as [lb|]; cbn; [eauto|discriminate]. Qed.
+
+  Lemma list_eqb_proof_eq (a : list proof) : forall b, list_eqb proof_eqb a b = true -> a = b.
+  Proof.
+    induction a as [|x a IH]; intros [|y b] E; cbn in E; try discriminate; [reflexivity|].
+    apply andb_true_iff in E as [E1 E2]. apply IH in E2. subst b. f_equal.
+    unfold proof_eqb in E1. destruct x, y; cbn in *.
+    repeat (apply andb_true_iff in E1 as [E1 ?]).
+    assert (list_eqb bytes_eqb p_aunts p_aunts0 = true -> p_aunts = p_aunts0).
+    { clear. revert p_aunts0. induction p_aunts as [|u l IHl]; intros [|v m] E; cbn in E; try discriminate; [reflexivity|].
+      apply andb_true_iff in E as [A B]. apply bytes_eqb_eq in A. apply IHl in B. congruence. }
+    apply bytes_eqb_eq in H1. f_equal; try lia; auto.
+  Qed.
+
+  (* GetTransactionsWithProofs: the transactions are the verified ones and
+     every returned proof verifies, for the transaction at its position,
+     against the verified header's data hash. *)
+  Theorem core_get_transactions_with_proofs_binds_l (lbo : option light_block) (txs : list bytes) (ret : list proof) :
+    core_get_transactions_with_proofs H lbo txs ret = BOk ->
+    exists lb, lbo = Some lb /\ verify_transactions H txs lb = BOk /\ length ret = length txs /\
+      forall d, lb_data_hash lb = Some d ->
+      forall i p, nth_error ret i = Some p -> verify_transaction_proof H (Some p) (nth i txs []) lb = BOk.
+  Proof.
+    unfold core_get_transactions_with_proofs. intros V.
+    destruct (core_get_transactions H lbo txs) eqn:G; try discriminate.
+    apply core_get_transactions_binds_l in G as (lb & -> & T).
+    destruct (list_eqb proof_eqb ret _) eqn:E; [|discriminate]. apply list_eqb_proof_eq in E.
+    exists lb. split; [reflexivity|]. split; [exact T|].
+    destruct (proof_complete_l H hlen H_len txs 0 (mkProof 0 0 [] [])) as [L _].
+    split; [rewrite E; exact L|].
+    intros d D i p N. unfold verify_transaction_proof. rewrite D.
+    unfold verify_transactions in T. rewrite D in T. cbn [opt_bytes_eqb] in T.
+    destruct (bytes_eqb (tx_root H txs) d) eqn:R; [|discriminate]. apply bytes_eqb_eq in R. subst d.
+    rewrite E in N. destruct (proof_complete_l H hlen H_len txs i p) as [_ C].
+    unfold proofs_for_txs in C. cbn [fst snd] in C. unfold proofs_for_txs in N. cbn [snd] in N.
+    rewrite (C N). reflexivity.
+  Qed.
+
+  Theorem core_get_parameters_binds_l (lbo : option light_block) (pm : parameters) (sp : option bytes) :
+    core_get_parameters H lbo pm sp = BOk -> exists lb, lbo = Some lb /\ verify_parameters H pm sp lb = BOk.
+  Proof. destruct lbo as [lb|]; cbn; [eauto|discriminate]. Qed.
+
+  (* GetValidators: provider data is returned only for a height the light
+     client cannot verify itself, and then only when it matches
+     NextValidatorsHash of the verified light block of the previous height. *)
+  Theorem core_get_validators_binds_l (lbo : option light_block) (height : Z) (lbp : option light_block) (vs : validators) :
+    core_get_validators H lbo height lbp vs = BOk ->
+    (exists lb, lbo = Some lb) \/
+    (lbo = None /\ (2 <= height)%Z /\ exists p, lbp = Some p /\ verify_next_validators H vs p = BOk).
+  Proof.
+    unfold core_get_validators. destruct lbo as [lb|]; [left; eauto|]. intros V. right.
+    destruct (Z.ltb_spec height 2); [discriminate|]. destruct lbp as [p|]; [|discriminate].
+    repeat split; try lia. eauto.
+  Qed.
+
+  Theorem core_submit_tx_with_proof_binds_l (lbo : option light_block) (p : option proof) (tx : bytes) (txs : list bytes) :
+    core_submit_tx_with_proof H lbo p tx = BOk ->
+    exists lb, lbo = Some lb /\ verify_transaction_proof H p tx lb = BOk /\
+      (verify_transactions H txs lb = BOk -> In tx txs \/ collision).
+  Proof.
+    destruct lbo as [lb|]; cbn; [|discriminate]. intros V. exists lb. repeat split; [exact V|].
+    intros T. eapply verify_transaction_proof_binds_l; eassumption.
+  Qed.
+
   (* ---------- state root ---------- *)
   Variable decode_meta_tx : bytes -> meta_tx.
 
